@@ -210,6 +210,14 @@ def txid_le(b):
     return hashlib.sha256(hashlib.sha256(bytes(out)).digest()).digest()
 
 
+THOROUGH_ONLY_BASES = {"btcdeb/sign-tx-legacyarg", "btcdeb/select-short", "btcdeb/dataset-p2sh-multisig-2-of-2",
+                       "btcdeb/dataset-p2sh-multisig-invalid-order", "btcdeb/dataset-p2sh-p2wpkh", "btcdeb/dataset-p2tr",
+                       "tap/n2-tx-sig-short", "tap/n1-prefix-short"}
+QUICK_EXTRA_OPTION_BASES = {"btcdeb/bracket", "btcdeb/stack", "btcdeb/auto-p2sh-p2wpkh", "btcdeb/sign-tx", "btcdeb/dataset-long",
+                            "btcdeb-argv/script", "btcdeb-argv/none", "tap/n1", "tap/n2-tx", "tap/n1-spend", "tap/noargs",
+                            "btcc/opcode1"}
+
+
 # ------------------------------------------------------------------------------------------------
 class Slot:
     """one argv element (prefix+value) or the stdin script line (stdin=True)"""
@@ -225,6 +233,8 @@ class Slot:
 class Base:
     def __init__(self, bid, tool, slots, klass, mode="batch", env=None, pair=False, opts=None):
         self.id, self.tool, self.slots, self.klass, self.mode = bid, tool, slots, klass, mode
+        self.quick = bid not in THOROUGH_ONLY_BASES           # near-duplicate forms are enumerated in the thorough tier only
+        self.quick_extras = bid in QUICK_EXTRA_OPTION_BASES   # quick: the extra-option deviations are applied to these bases
         self.env = env or {}
         self.pair = pair          # take part in the 2-deviation enumeration
         self.opts = opts          # option table for the extra-option deviations
@@ -332,8 +342,7 @@ def build_bases(repo):
     deb("select-short", "", [O("-x", ttx, "tx"), O("-i", tin, "txin", partner=0), O("-s", "0", "index", n=1)], [], "select")
     deb("pretend", "[OP_CHECKSIG]", [O("--pretend-valid=", DERSIG + ":" + G_PUB, "pv")], [DERSIG, G_PUB], "pretend-valid",
         stackvt="hex")
-    deb("pretend-short", "[OP_CHECKSIG]", [O("-P", "0x01:0x02", "pv")], ["0x01", "0x02"], "pretend-valid", pair=True,
-        stackvt="hex")
+    deb("pretend-short", "[OP_CHECKSIG]", [O("-P", "0x01:0x02", "pv")], ["0x01", "0x02"], "pretend-valid", stackvt="hex")
     for (op, operands) in EXTENDED_OPS:
         deb("z-" + op, "[%s]" % op, [O("-z", "", "flagopt")], operands, "disabled-opcode", pair=(op in ("OP_DIV", "OP_2DIV")))
     deb("z-long", "[OP_1 OP_2 OP_MUL]", [O("--allow-disabled-opcodes", "", "flagopt")], [], "disabled-opcode")
@@ -395,7 +404,7 @@ def build_bases(repo):
     tap("n2-tx-sig-short", [O("-x", TAP_TX, "tx"), O("-i", TAP_TXIN, "txin", partner=0), O("-s", SIG64, "hex")], TAP_PUB, 2,
         [TAP_ALICE, TAP_BOB], [], "tap tx sig")
     tap("n2-privkey", [O("-k", H32, "hex")], TAP_PUB, 2, [TAP_ALICE, TAP_BOB], [], "tap privkey (feature compiled out)")
-    tap("n1-prefix", [O("--addrprefix=", "tb", "name")], G_X, 1, ["[OP_1]"], [], "tap addrprefix", pair=True)
+    tap("n1-prefix", [O("--addrprefix=", "tb", "name")], G_X, 1, ["[OP_1]"], [], "tap addrprefix")
     tap("n1-prefix-short", [O("-p", "bc", "name")], G_X, 1, ["[OP_1]"], [], "tap addrprefix")
     tap("n1-quiet", [O("-q", "", "flagopt")], G_X, 1, ["[OP_1]"], [], "tap quiet")
     B.append(Base("tap/version", "tap", [O("--version", "", "flagopt")], "tap info", opts=TAP_OPTS))
@@ -413,9 +422,9 @@ def big_strings():
 
 
 INDEX_VALUES = ["-1", "<n>", "<n+1>", "2147483648", "4294967296", "", "x"]
-NUM_VALUES = ["0", "-1", "0x80", "0x", "2147483647", "2147483648", "-2147483648", "9223372036854775807",
-              "9223372036854775808", "-9223372036854775808", "0x0500000000", "0xffffffffff", "OP_0", "OP_1NEGATE"]
-NONHEX_CHARS = ["g", "Z", " ", ":", ",", "-", "\x7f", "\xc3\xa9"]
+NUM_VALUES = ["0", "-1", "0x80", "0x", "2147483648", "9223372036854775808", "0x0500000000", "OP_0",      # quick: these eight
+              "2147483647", "-2147483648", "9223372036854775807", "-9223372036854775808", "0xffffffffff", "OP_1NEGATE"]
+NONHEX_CHARS = ["g", " ", ":", "Z", ",", "-", "\x7f", "\xc3\xa9"]   # quick: the first three
 
 
 def trunc_positions(s, vtype, fields=None, tier="quick"):
@@ -423,7 +432,7 @@ def trunc_positions(s, vtype, fields=None, tier="quick"):
     n = len(s)
     if n <= 1:
         return []
-    if n <= 240:
+    if n <= (96 if tier == "quick" else 240):
         return list(range(1, n))
     P = set()
     if vtype in ("tx", "txin", "txamt"):
@@ -441,6 +450,10 @@ def trunc_positions(s, vtype, fields=None, tier="quick"):
         # odd-length cuts: one nibble into a field, at each field start
         for f in fields or []:
             P.add(off + 2 * f[2] + 1)
+    elif tier == "quick":
+        P.update(range(1, 65))
+        P.update(range(64, n, 8))
+        P.update(range(max(1, n - 4), n))
     else:
         P.update(range(1, 161))
         P.update(range(160, n, 16))
@@ -546,7 +559,7 @@ def slot_deviations(base, i, tier):
         if len(val) > 1:
             rep("odd-length-hex", "drop first nibble", val[:off] + val[off + 1:])
         for p in nonhex_positions(val):
-            for ch in NONHEX_CHARS:
+            for ch in (NONHEX_CHARS[:3] if tier == "quick" else NONHEX_CHARS):
                 rep("non-hex-char", "%r at %d" % (ch, p), val[:p] + ch + val[p + 1:])
         if fields:
             # one non-hex character at the first nibble of each field class
@@ -569,7 +582,7 @@ def slot_deviations(base, i, tier):
         rep("paren", "v(", val + "(")
         rep("paren", "v)", val + ")")
         rep("paren", "v()", val + "()")
-        for nv in NUM_VALUES:
+        for nv in (NUM_VALUES[:8] if tier == "quick" else NUM_VALUES):
             if nv != val:
                 rep("boundary-value", nv, nv)
         for nbytes in (520, 521, 10000):
@@ -645,9 +658,11 @@ def _looks_hex(v):
     return len(w) >= 2 and all(c in "0123456789abcdefABCDEF" for c in w)
 
 
-def extra_option_deviations(base):
+def extra_option_deviations(base, tier="thorough"):
     """one option of the tool's table added to the command line: empty / missing / oversized value, for every option"""
     D = []
+    if tier == "quick" and not base.quick_extras:
+        return D
     for (long, short, takes) in base.opts or []:
         D.append(("extra-option", "--%s= (empty)" % long, {"FRONT": ["--%s=" % long]}))
         D.append(("extra-option", "--%s=<10^4 A>" % long, {"FRONT": ["--%s=%s" % (long, "A" * BIG)]}))
@@ -664,10 +679,7 @@ def single_deviations(base, tier):
     D = []
     for i in range(len(base.slots)):
         D.extend(slot_deviations(base, i, tier))
-    D.extend(extra_option_deviations(base))
-    # whole-input deviations
-    if base.mode == "batch" and not any(s.stdin for s in base.slots):
-        pass
+    D.extend(extra_option_deviations(base, tier))
     return D
 
 
@@ -676,7 +688,7 @@ def pair_deviations(base, tier):
     per = []
     for i in range(len(base.slots)):
         per.append(slot_deviations(base, i, tier))
-    per.append(extra_option_deviations(base))
+    per.append(extra_option_deviations(base, tier))
     out = []
     for a in range(len(per)):
         for b in range(a + 1, len(per)):
@@ -724,12 +736,12 @@ def changed_char(s, pos=None):
 def adversarial_args():
     """the ~8 adversarial tf arguments of the design, plus the well-formed bech32 strings with an empty data part"""
     return [("empty", ""), ("x", "x"), ("0x", "0x"), ("1byte", "0x00"), ("31bytes", "0x" + "11" * 31), ("32bytes", "0x" + "11" * 32),
-            ("33bytes", "0x" + "02" + "11" * 32), ("64bytes", "0x" + "11" * 64), ("65bytes", "0x" + "04" + "11" * 64),
-            ("10^4chars", "A" * (BIG - 40)), ("10^4hex", "0x" + "ab" * ((BIG - 40) // 2)),
+            ("33bytes", "0x" + "02" + "11" * 32), ("64bytes", "0x" + "11" * 64),
+            ("~10^4chars", "A" * (BIG - 400)),   # the REPL's line buffer is 10240 bytes: keep the whole command on one line
             ("base58-addr-1char-changed", changed_char(ADDR58)), ("bech32-addr-1char-changed", changed_char(BECH)),
-            ("bech32-empty-data", "a12uel5l"), ("bech32m-empty-data", "a1lqfn3a"), ("base58-valid-empty", "3QJmnh"),
-            ("number", "1"), ("negative", "-1"), ("int64-overflow", "9223372036854775808"), ("5-byte-number", "0x0102030405"),
-            ("bracket", "[OP_1]"), ("unclosed-bracket", "[OP_1"), ("opcode", "OP_CHECKSIG"), ("quote", "\"abc"), ("backslash", "abc\\")]
+            ("bech32-empty-data", "a12uel5l"), ("bech32m-empty-data", "a1lqfn3a"), ("base58check-of-nothing", "3QJmnh"),
+            ("int64-overflow", "9223372036854775808"), ("5-byte-number", "0x0102030405"), ("unclosed-bracket", "[OP_1"),
+            ("quote", "\"abc")]
 
 
 def tf_commands():
